@@ -204,6 +204,35 @@ func genC17() {
 		fl[n] = c17Print(token.NewFileSet(), e)
 	}
 	facts["c14_flush_consts"] = fl
+
+	// ---- syncer/syncer.go updateCheckpoint: how a start orders the reported ids before
+	// UpdateCheckpoint (Model/Checkpoint.lean startIds): every statement that mentions `ordered`
+	fsetS, fsy := parseFile("syncer/syncer.go")
+	var ord []string
+	for _, d := range fsy.Decls {
+		fd, ok := d.(*ast.FuncDecl)
+		if !ok || fd.Name.Name != "updateCheckpoint" || fd.Body == nil {
+			continue
+		}
+		ast.Inspect(fd.Body, func(n ast.Node) bool {
+			switch st := n.(type) {
+			case *ast.IfStmt:
+				if t := c17Print(fsetS, st); strings.Contains(t, "ordered =") && !strings.Contains(t, "func()") {
+					ord = append(ord, t)
+					return false
+				}
+			case *ast.AssignStmt:
+				if t := c17Print(fsetS, st); strings.Contains(t, "ordered") && !strings.Contains(t, "func()") {
+					ord = append(ord, t)
+				}
+			}
+			return true
+		})
+	}
+	if len(ord) == 0 {
+		die("syncer/syncer.go: updateCheckpoint's id ordering not found")
+	}
+	facts["c17_start_order"] = ord
 }
 
 // c17StripLogs removes `sc.logger.X(...)` statements from a printed block
